@@ -485,9 +485,9 @@ func (e *BinaryOpExpr) execBetweenBatch(chunk []KVPair, number bool, ctx *Execut
 	)
 	for i := 0; i < len(chunk); i++ {
 		if number {
-			cmp, err = execNumberCompare(lbvals[i], ubvals[i], "<")
+			cmp, err = execNumberCompare(lbvals[i], ubvals[i], "<=")
 		} else {
-			cmp, err = execStringCompare(lbvals[i], ubvals[i], "<")
+			cmp, err = execStringCompare(lbvals[i], ubvals[i], "<=")
 		}
 		if err != nil {
 			return nil, err
